@@ -391,3 +391,577 @@ Proof.
            destruct p1; try discriminate; destruct (ril r) as [[? ?]|]; try discriminate;
            now apply find_free_model in E end.
 Qed.
+
+(* ---------- the server invariant ---------- *)
+Definition linked (sv : server) (c k : N) : Prop :=
+  exists x, nnth c (conns sv) = Some x /\ copen x = true /\ csess x = Some k.
+
+(* [dk]: a session exempt from the "no connections => streaming over UDP" clause (it is about to end) *)
+Record ginv (dk : option N) (sv : server) : Prop := {
+  inv_sess : forall k s, nnth k (sessions sv) = Some s -> salive s = true -> sess_ok s;
+  inv_att : forall k s, nnth k (sessions sv) = Some s -> salive s = true ->
+            forall c, In c (sconns s) <-> linked sv c k;
+  inv_range : forall c k, linked sv c k -> exists s, nnth k (sessions sv) = Some s /\ salive s = true;
+  inv_tcp : forall c x, nnth c (conns sv) = Some x -> copen x = true -> ctcp x = true ->
+            exists k s, csess x = Some k /\ nnth k (sessions sv) = Some s /\ salive s = true /\ stcpconn s = Some c;
+  inv_empty : forall k s, nnth k (sessions sv) = Some s -> salive s = true -> dk <> Some k ->
+              sconns s = [] -> streaming s = true /\ stransport s <> Some TCP }.
+Definition inv := ginv None.
+
+Lemma inv_weaken dk sv : inv sv -> ginv dk sv.
+Proof.
+  intros [A B C D E]. constructor; auto. intros k s H1 H2 _ H3. apply (E k s H1 H2); [discriminate|exact H3].
+Qed.
+
+Lemma nnth_some_lt {A} (l : list A) i x : nnth i l = Some x -> i < nlen l.
+Proof.
+  intros H. destruct (N.ltb_spec i (nlen l)) as [L|L]; [exact L|]. rewrite nnth_ge in H by lia. discriminate.
+Qed.
+
+Lemma nnth_nset {A} i j (v : A) l x :
+  nnth i l = Some x -> nnth j (nset i v l) = if j =? i then Some v else nnth j l.
+Proof.
+  intros H. destruct (N.eqb_spec j i) as [->|N].
+  - apply nnth_nset_same. eapply nnth_some_lt; eauto.
+  - apply nnth_nset_other. congruence.
+Qed.
+
+Lemma in_nremove x y l : In y (nremove x l) <-> In y l /\ y <> x.
+Proof.
+  unfold nremove. rewrite filter_In. split; intros [A B]; split; auto.
+  - destruct (N.eqb_spec y x); [discriminate|auto].
+  - destruct (N.eqb_spec y x); [contradiction|reflexivity].
+Qed.
+Lemma nmem_in x l : nmem x l = true <-> In x l.
+Proof.
+  unfold nmem. rewrite existsb_exists. split.
+  - intros (y & A & B). apply N.eqb_eq in B. now subst.
+  - intros A. exists x. split; [exact A|apply N.eqb_refl].
+Qed.
+Lemma in_nadd x y l : In y (nadd x l) <-> In y l \/ y = x.
+Proof.
+  unfold nadd. destruct (nmem x l) eqn:E.
+  - apply nmem_in in E. split; [auto|]. intros [A| ->]; auto.
+  - rewrite in_app_iff. cbn. intuition.
+Qed.
+
+Lemma nnth_close_conns l cs c :
+  nnth c (close_conns l cs) =
+  option_map (fun x => if nmem c l then mkConn false (csess x) (cip x) (ctcp x) else x) (nnth c cs).
+Proof.
+  revert cs; induction l as [|a t IH]; intros cs; cbn [close_conns nmem existsb].
+  - destruct (nnth c cs); reflexivity.
+  - rewrite IH. destruct (nnth a cs) as [y|] eqn:Ea.
+    + rewrite (nnth_nset _ c _ _ _ Ea). rewrite (N.eqb_sym c a).
+      destruct (N.eqb_spec a c) as [->|N]; cbn [orb option_map].
+      * rewrite Ea. cbn [option_map]. destruct (nmem c t); reflexivity.
+      * reflexivity.
+    + destruct (N.eqb_spec c a) as [->|N]; cbn [orb].
+      * rewrite Ea. reflexivity.
+      * reflexivity.
+Qed.
+
+Lemma linked_after_close l sv c k :
+  linked (mkSrv (sessions sv) (close_conns l (conns sv))) c k <-> linked sv c k /\ ~ In c l.
+Proof.
+  unfold linked; cbn [conns]. split.
+  - intros (x & A & B & C). rewrite nnth_close_conns in A.
+    destruct (nnth c (conns sv)) as [y|] eqn:E; [|discriminate]. cbn [option_map] in A.
+    destruct (nmem c l) eqn:M; inversion A; subst x; cbn in B; [discriminate|].
+    split; [eauto|]. intros I. apply nmem_in in I. congruence.
+  - intros ((x & A & B & C) & NI). exists x. rewrite nnth_close_conns, A. cbn [option_map].
+    destruct (nmem c l) eqn:M; [apply nmem_in in M; contradiction|auto].
+Qed.
+
+Lemma end_session_inv k w sv sv' evs :
+  end_session k w sv = (sv', evs) -> ginv (Some k) sv -> inv sv'.
+Proof.
+  unfold end_session. intros H G.
+  destruct (nnth k (sessions sv)) as [s|] eqn:Ek.
+  2:{ inversion H; subst. destruct G as [A B C D E]. constructor; auto.
+      intros k' s' H1 H2 _ H3. apply (E k' s' H1 H2); [congruence|exact H3]. }
+  destruct (salive s) eqn:Al.
+  2:{ inversion H; subst. destruct G as [A B C D E]. constructor; auto.
+      intros k' s' H1 H2 _ H3. apply (E k' s' H1 H2); [congruence|exact H3]. }
+  inversion H; subst sv' evs; clear H.
+  destruct G as [A B C D E].
+  set (dead := mkSess _ _ _ _ _ _ _ _ _ _ false).
+  assert (NS : forall k' s', nnth k' (nset k dead (sessions sv)) = Some s' -> salive s' = true ->
+                             k' <> k /\ nnth k' (sessions sv) = Some s').
+  { intros k' s' H1 H2. rewrite (nnth_nset _ _ _ _ _ Ek) in H1.
+    destruct (N.eqb_spec k' k); [inversion H1; subst s'; discriminate|auto]. }
+  assert (LK : forall c k', linked (mkSrv (nset k dead (sessions sv)) (close_conns (sconns s) (conns sv))) c k'
+                            <-> linked sv c k' /\ k' <> k).
+  { intros c k'. etransitivity; [apply (linked_after_close (sconns s) (mkSrv (nset k dead (sessions sv)) (conns sv)))|].
+    change (linked (mkSrv (nset k dead (sessions sv)) (conns sv)) c k') with (linked sv c k').
+    split.
+    - intros [L NI]. split; [exact L|]. intros ->. apply NI. apply (B k s Ek Al). exact L.
+    - intros [L NK]. split; [exact L|]. intros I. apply (B k s Ek Al) in I.
+      destruct L as (x & L1 & L2 & L3), I as (y & I1 & I2 & I3). congruence. }
+  constructor; cbn [sessions conns].
+  - intros k' s' H1 H2. destruct (NS _ _ H1 H2) as [_ H3]. eauto.
+  - intros k' s' H1 H2 c. destruct (NS _ _ H1 H2) as [NK H3]. rewrite LK. rewrite (B k' s' H3 H2). tauto.
+  - intros c k' L. apply LK in L. destruct L as [L NK]. destruct (C _ _ L) as (s' & S1 & S2).
+    exists s'. split; [|exact S2]. rewrite (nnth_nset _ _ _ _ _ Ek). destruct (N.eqb_spec k' k); [contradiction|exact S1].
+  - intros c x H1 H2 H3. rewrite nnth_close_conns in H1.
+    destruct (nnth c (conns sv)) as [y|] eqn:Ec; [|discriminate]. cbn [option_map] in H1.
+    destruct (nmem c (sconns s)) eqn:M; inversion H1; subst x; cbn in H2; [discriminate|].
+    destruct (D c y Ec H2 H3) as (k' & s' & T1 & T2 & T3 & T4). exists k', s'. repeat split; auto.
+    rewrite (nnth_nset _ _ _ _ _ Ek). destruct (N.eqb_spec k' k) as [->|]; [|exact T2].
+    exfalso. assert (In c (sconns s)) by (apply (B k s Ek Al); exists y; auto). apply nmem_in in H. congruence.
+  - intros k' s' H1 H2 _ H3. destruct (NS _ _ H1 H2) as [NK H4]. apply (E k' s' H4 H2); [congruence|exact H3].
+Qed.
+
+Lemma ginv_strengthen k sv :
+  ginv (Some k) sv ->
+  (forall s, nnth k (sessions sv) = Some s -> salive s = true -> sconns s = [] ->
+             streaming s = true /\ stransport s <> Some TCP) ->
+  inv sv.
+Proof.
+  intros [A B C D E] F. constructor; auto. intros k' s' H1 H2 _ H3.
+  destruct (N.eq_dec k' k) as [->|NK]; [eauto|]. apply (E k' s' H1 H2); [congruence|exact H3].
+Qed.
+
+Lemma linked_set_closed sv ss c x a b d c' k' :
+  nnth c (conns sv) = Some x ->
+  linked (mkSrv ss (nset c (mkConn false a b d) (conns sv))) c' k'
+  <-> linked sv c' k' /\ c' <> c.
+Proof.
+  intros Ec. unfold linked; cbn [conns]. split.
+  - intros (y & A & B & C). rewrite (nnth_nset _ _ _ _ _ Ec) in A.
+    destruct (N.eqb_spec c' c); [inversion A; subst y; discriminate|]. split; [eauto|assumption].
+  - intros ((y & A & B & C) & NC). exists y. rewrite (nnth_nset _ _ _ _ _ Ec).
+    destruct (N.eqb_spec c' c); [contradiction|auto].
+Qed.
+
+Lemma sess_ok_conns_eq s s' :
+  sstate s' = sstate s -> stransport s' = stransport s -> smedias s' = smedias s ->
+  sannounced s' = sannounced s -> stcpconn s' = stcpconn s -> swriter s' = swriter s ->
+  sess_ok s -> sess_ok s'.
+Proof.
+  unfold sess_ok, streaming. intros -> -> -> -> -> ->. exact (fun H => H).
+Qed.
+
+Lemma close_conn_inv c sv sv' evs : close_conn c sv = Some (sv', evs) -> inv sv -> inv sv'.
+Proof.
+  unfold close_conn. intros H I.
+  destruct (nnth c (conns sv)) as [x|] eqn:Ec; [|inversion H; subst; exact I].
+  destruct (copen x) eqn:Eo; cbn [negb] in H; [|inversion H; subst; exact I].
+  pose proof I as [A B C D E].
+  destruct (csess x) as [k|] eqn:Ex.
+  - assert (L : linked sv c k) by (exists x; auto).
+    destruct (C _ _ L) as (s & Ek & Al).
+    unfold set_conn in H; cbn [sessions conns] in H. rewrite Ek, Al in H. cbn [negb] in H.
+    set (s' := mkSess _ _ _ _ _ _ (nremove c (sconns s)) _ _ _ true) in H.
+    set (sv2 := set_sess k s' _) in H.
+    assert (G : ginv (Some k) sv2).
+    { subst sv2. unfold set_sess; cbn [sessions conns].
+      assert (NS : forall k' s'', nnth k' (nset k s' (sessions sv)) = Some s'' ->
+                   (k' = k /\ s'' = s') \/ (k' <> k /\ nnth k' (sessions sv) = Some s'')).
+      { intros k' s'' H1. rewrite (nnth_nset _ _ _ _ _ Ek) in H1.
+        destruct (N.eqb_spec k' k); [left; inversion H1; auto|right; auto]. }
+      constructor; cbn [sessions conns].
+      - intros k' s'' H1 H2. destruct (NS _ _ H1) as [[-> ->]|[NK H3]]; [|eauto].
+        eapply sess_ok_conns_eq; [..|exact (A k s Ek Al)]; reflexivity.
+      - intros k' s'' H1 H2 c'. rewrite (linked_set_closed sv _ c x _ _ _ c' k' Ec).
+        destruct (NS _ _ H1) as [[-> ->]|[NK H3]].
+        + subst s'; cbn [sconns]. rewrite in_nremove, (B k s Ek Al). tauto.
+        + rewrite (B k' s'' H3 H2). split; [|tauto]. intros L'. split; [exact L'|].
+          intros ->. destruct L' as (y & Y1 & Y2 & Y3). congruence.
+      - intros c' k' L'. apply (linked_set_closed sv _ c x _ _ _ c' k' Ec) in L'. destruct L' as [L' NC].
+        destruct (C _ _ L') as (s'' & S1 & S2). rewrite (nnth_nset _ _ _ _ _ Ek).
+        destruct (N.eqb_spec k' k); [exists s'; split; reflexivity|eauto].
+      - intros c' y H1 H2 H3. rewrite (nnth_nset _ _ _ _ _ Ec) in H1.
+        destruct (N.eqb_spec c' c); [inversion H1; subst y; discriminate|].
+        destruct (D c' y H1 H2 H3) as (k' & s'' & T1 & T2 & T3 & T4).
+        exists k'. rewrite (nnth_nset _ _ _ _ _ Ek).
+        destruct (N.eqb_spec k' k) as [->|]; [|eauto 6].
+        exists s'. rewrite Ek in T2; inversion T2; subst s''. repeat split; auto.
+      - intros k' s'' H1 H2 NK H3. destruct (NS _ _ H1) as [[-> _]|[_ H4]]; [congruence|].
+        apply (E k' s'' H4 H2); [discriminate|exact H3]. }
+    assert (Ek2 : nnth k (sessions sv2) = Some s').
+    { subst sv2. unfold set_sess; cbn [sessions]. apply nnth_nset_same. eapply nnth_some_lt; eauto. }
+    destruct (streaming s) eqn:St.
+    + destruct (stransport s) as [p|] eqn:Tr; [|discriminate].
+      destruct (proto_eqb p TCP && (nlen (sconns s') =? 0)) eqn:Cnd; inversion H as [H1]; clear H.
+      * eapply end_session_inv; eauto.
+      * subst sv'. apply (ginv_strengthen k); [exact G|]. intros s0 H2 _ H3. rewrite Ek2 in H2; inversion H2; subst s0.
+        rewrite H3 in Cnd. split; [exact St|]. cbn [stransport s']. destruct p; cbn in Cnd; congruence.
+    + destruct (nlen (sconns s') =? 0) eqn:Cnd; inversion H as [H1]; clear H.
+      * eapply end_session_inv; eauto.
+      * subst sv'. apply (ginv_strengthen k); [exact G|]. intros s0 H2 _ H3. rewrite Ek2 in H2; inversion H2; subst s0.
+        rewrite H3 in Cnd. cbn in Cnd. discriminate.
+  - inversion H; subst sv' evs; clear H. unfold set_conn.
+    constructor; cbn [sessions conns].
+    + exact A.
+    + intros k' s'' H1 H2 c'. rewrite (linked_set_closed sv _ c x _ _ _ c' k' Ec), (B k' s'' H1 H2).
+      split; [|tauto]. intros L'. split; [exact L'|]. intros ->. destruct L' as (y & Y1 & Y2 & Y3). congruence.
+    + intros c' k' L'. apply (linked_set_closed sv _ c x _ _ _ c' k' Ec) in L'. destruct L' as [L' NC]. eauto.
+    + intros c' y H1 H2 H3. rewrite (nnth_nset _ _ _ _ _ Ec) in H1.
+      destruct (N.eqb_spec c' c); [inversion H1; subst y; discriminate|]. eauto.
+    + exact E.
+Qed.
+
+Lemma close_conn_total c sv : inv sv -> close_conn c sv <> None.
+Proof.
+  intros [A B C D E]. unfold close_conn.
+  destruct (nnth c (conns sv)) as [x|] eqn:Ec; [|discriminate].
+  destruct (copen x) eqn:Eo; cbn [negb]; [|discriminate].
+  destruct (csess x) as [k|] eqn:Ex; [|discriminate].
+  unfold set_conn; cbn [sessions].
+  destruct (nnth k (sessions sv)) as [s|] eqn:Ek; [|discriminate].
+  destruct (salive s) eqn:Al; cbn [negb]; [|discriminate].
+  destruct (streaming s) eqn:St.
+  - destruct (stransport s) eqn:Tr; [destruct (_ && _); discriminate|].
+    exfalso. destruct (A k s Ek Al) as (I1 & _). now apply I1.
+  - destruct (_ =? _); discriminate.
+Qed.
+
+(* ---------- the handler and the interleaved-connection pin ---------- *)
+Lemma handle_pin cf o c r s s1 status e :
+  handle cf o c r s = HOk s1 status e ->
+  match e with
+  | ESwTcp => stcpconn s1 = Some c
+  | ESwStd => True
+  | _ => stcpconn s1 = stcpconn s
+  end.
+Proof.
+  unfold handle, fail400, destroy_writer, streaming. intros H.
+  destruct (pin_reject c s); [inversion H; reflexivity|].
+  destruct (rmeth r) eqn:Em; destruct (sstate s) eqn:Es; cbn [st_eqb negb andb orb] in H.
+  all: brk H; try discriminate; inversion H; subst; clear H; cbn; auto.
+  all: unfold verdict_err; destruct (verr r); reflexivity.
+Qed.
+
+Lemma handle_pinned_other cf o c c' r s s1 status e :
+  stcpconn s = Some c' -> c' <> c ->
+  handle cf o c r s = HOk s1 status e -> s1 = s /\ e = EFatal.
+Proof.
+  intros P N. unfold handle, pin_reject. rewrite P.
+  destruct (N.eqb_spec c' c); [contradiction|]. cbn [negb]. unfold fail400. intros H; inversion H; auto.
+Qed.
+
+Lemma handle_teardown cf o c r s s1 status e :
+  rmeth r = Teardown ->
+  handle cf o c r s = HOk s1 status e ->
+  s1 = s /\ e <> ESwTcp /\ (streaming s = true -> stransport s = Some TCP -> e <> ENone).
+Proof.
+  intros Em. unfold handle, fail400. rewrite Em.
+  destruct (pin_reject c s); [intros H; inversion H; repeat split; discriminate|].
+  destruct (streaming s).
+  - destruct (stransport s) as [[]|]; intros H; inversion H; repeat split; try discriminate; intros; congruence.
+  - intros H; inversion H; repeat split; discriminate.
+Qed.
+
+Lemma meth_eqb_eq a b : meth_eqb a b = true -> a = b.
+Proof. destruct a, b; cbn; congruence. Qed.
+
+(* invariant just before a request is handed to session k by connection c: as [inv], except that c may
+   already be listed by session k without being linked to it yet (a session is created listing its author) *)
+Record pinv (c k : N) (sv : server) : Prop := {
+  p_sess : forall k' s', nnth k' (sessions sv) = Some s' -> salive s' = true -> sess_ok s';
+  p_att : forall k' s', nnth k' (sessions sv) = Some s' -> salive s' = true ->
+          forall c', (c' <> c \/ k' <> k) -> (In c' (sconns s') <-> linked sv c' k');
+  p_range : forall c' k', linked sv c' k' -> exists s', nnth k' (sessions sv) = Some s' /\ salive s' = true;
+  p_tcp : forall c' x', nnth c' (conns sv) = Some x' -> copen x' = true -> ctcp x' = true ->
+          exists k' s', csess x' = Some k' /\ nnth k' (sessions sv) = Some s' /\ salive s' = true /\ stcpconn s' = Some c';
+  p_empty : forall k' s', nnth k' (sessions sv) = Some s' -> salive s' = true ->
+            sconns s' = [] -> streaming s' = true /\ stransport s' <> Some TCP }.
+
+Lemma inv_pinv c k sv : inv sv -> pinv c k sv.
+Proof.
+  intros [A B C D E]. constructor; auto.
+  intros k' s' H1 H2 H3. apply (E k' s' H1 H2); [discriminate|exact H3].
+Qed.
+
+Lemma linked_set_open sv ss c x k b d c' k' :
+  nnth c (conns sv) = Some x ->
+  linked (mkSrv ss (nset c (mkConn true (Some k) b d) (conns sv))) c' k'
+  <-> (c' = c /\ k' = k) \/ (c' <> c /\ linked sv c' k').
+Proof.
+  intros Ec. unfold linked; cbn [conns]. split.
+  - intros (y & A & B & C). rewrite (nnth_nset _ _ _ _ _ Ec) in A.
+    destruct (N.eqb_spec c' c); [inversion A; subst y; cbn in C; left; split; congruence|right; eauto].
+  - intros [[-> ->]|(NC & y & A & B & C)].
+    + eexists. rewrite (nnth_nset _ _ _ _ _ Ec), N.eqb_refl. split; [reflexivity|]. split; reflexivity.
+    + exists y. rewrite (nnth_nset _ _ _ _ _ Ec). destruct (N.eqb_spec c' c); [contradiction|auto].
+Qed.
+
+Lemma linked_set_unlinked sv ss c x b d c' k' :
+  nnth c (conns sv) = Some x ->
+  linked (mkSrv ss (nset c (mkConn true None b d) (conns sv))) c' k'
+  <-> c' <> c /\ linked sv c' k'.
+Proof.
+  intros Ec. unfold linked; cbn [conns]. split.
+  - intros (y & A & B & C). rewrite (nnth_nset _ _ _ _ _ Ec) in A.
+    destruct (N.eqb_spec c' c); [inversion A; subst y; discriminate|split; eauto].
+  - intros (NC & y & A & B & C). exists y. rewrite (nnth_nset _ _ _ _ _ Ec).
+    destruct (N.eqb_spec c' c); [contradiction|auto].
+Qed.
+
+Lemma nadd_nonnil x l : nadd x l <> [].
+Proof.
+  intros E. assert (In x (nadd x l)) by (apply in_nadd; auto). rewrite E in H. contradiction.
+Qed.
+
+(* the server after the session goroutine has handled the request and the connection was (re)linked *)
+Lemma linked_inv cf sv c x r k s s1 status e tcp' :
+  nnth c (conns sv) = Some x -> copen x = true -> (csess x = None \/ csess x = Some k) ->
+  nnth k (sessions sv) = Some s -> salive s = true -> pinv c k sv ->
+  handle cf (sessions sv) c r (upd_conns s (nadd c (sconns s))) = HOk s1 status e ->
+  tcp' = match e with ESwTcp => true | ESwStd => false | _ => ctcp x end ->
+  inv (set_conn c (mkConn true (Some k) (cip x) tcp') (set_sess k s1 sv)).
+Proof.
+  intros Ec Eo Ex Ek Al [A B C D E] Eh Et.
+  pose proof (handle_ok _ _ _ _ _ _ _ _ (sess_ok_conns s (nadd c (sconns s)) (A k s Ek Al)) Eh) as OK1.
+  destruct (handle_frame _ _ _ _ _ _ _ _ Eh) as (F1 & F2 & F3). cbn [upd_conns salive sconns] in F1, F2.
+  pose proof (handle_pin _ _ _ _ _ _ _ _ Eh) as HP. cbn [upd_conns stcpconn] in HP.
+  unfold set_conn, set_sess; cbn [sessions conns].
+  assert (NS : forall k' s'', nnth k' (nset k s1 (sessions sv)) = Some s'' ->
+               (k' = k /\ s'' = s1) \/ (k' <> k /\ nnth k' (sessions sv) = Some s'')).
+  { intros k' s'' H1. rewrite (nnth_nset _ _ _ _ _ Ek) in H1.
+    destruct (N.eqb_spec k' k); [left; inversion H1; auto|right; auto]. }
+  assert (NL : forall k', k' <> k -> ~ linked sv c k').
+  { intros k' NK (y & Y1 & Y2 & Y3). rewrite Ec in Y1; inversion Y1; subst y. destruct Ex; congruence. }
+  constructor; cbn [sessions conns].
+  - intros k' s'' H1 H2. destruct (NS _ _ H1) as [[-> ->]|[NK H3]]; eauto.
+  - intros k' s'' H1 H2 c'. rewrite (linked_set_open sv _ c x k _ _ c' k' Ec).
+    destruct (NS _ _ H1) as [[-> ->]|[NK H3]].
+    + rewrite F2, in_nadd. destruct (N.eq_dec c' c) as [->|NC]; [tauto|].
+      rewrite (B k s Ek Al c' (or_introl NC)). tauto.
+    + destruct (N.eq_dec c' c) as [->|NC].
+      * rewrite (B k' s'' H3 H2 c (or_intror NK)). split; [intros L; exfalso; exact (NL k' NK L)|].
+        intros [[_ ->]|[NC _]]; contradiction.
+      * rewrite (B k' s'' H3 H2 c' (or_introl NC)). tauto.
+  - intros c' k' L. apply (linked_set_open sv _ c x k _ _ c' k' Ec) in L.
+    rewrite (nnth_nset _ _ _ _ _ Ek).
+    destruct L as [[-> ->]|[NC L]].
+    + rewrite N.eqb_refl. eauto.
+    + destruct (C _ _ L) as (s'' & S1 & S2). destruct (N.eqb_spec k' k); eauto.
+  - intros c' y H1 H2 H3. rewrite (nnth_nset _ _ _ _ _ Ec) in H1.
+    destruct (N.eqb_spec c' c) as [->|NC].
+    + inversion H1; subst y; clear H1. cbn [ctcp] in H3. cbn [csess]. subst tcp'.
+      exists k, s1. rewrite (nnth_nset _ _ _ _ _ Ek), N.eqb_refl.
+      split; [reflexivity|]. split; [reflexivity|]. split; [congruence|].
+      destruct e; try discriminate; auto.
+      * rewrite HP. destruct (D c x Ec Eo H3) as (k' & s'' & T1 & T2 & T3 & T4).
+        destruct Ex as [Ex|Ex]; [congruence|]. rewrite Ex in T1; inversion T1; subst k'. congruence.
+      * rewrite HP. destruct (D c x Ec Eo H3) as (k' & s'' & T1 & T2 & T3 & T4).
+        destruct Ex as [Ex|Ex]; [congruence|]. rewrite Ex in T1; inversion T1; subst k'. congruence.
+    + destruct (D c' y H1 H2 H3) as (k' & s'' & T1 & T2 & T3 & T4).
+      exists k'. rewrite (nnth_nset _ _ _ _ _ Ek). destruct (N.eqb_spec k' k) as [->|NK]; [|eauto 6].
+      exists s1. rewrite Ek in T2; inversion T2; subst s''.
+      split; [exact T1|]. split; [reflexivity|]. split; [congruence|].
+      assert (P : stcpconn (upd_conns s (nadd c (sconns s))) = Some c') by exact T4.
+      destruct (handle_pinned_other _ _ _ _ _ _ _ _ _ P NC Eh) as [-> _]. exact T4.
+  - intros k' s'' H1 H2 _ H3. destruct (NS _ _ H1) as [[-> ->]|[NK H4]]; [|eauto].
+    rewrite F2 in H3. exfalso. exact (nadd_nonnil _ _ H3).
+Qed.
+
+(* the server after an accepted TEARDOWN, before the session is ended *)
+Lemma teardown_ginv cf sv c x r k s s1 status e tcp' :
+  nnth c (conns sv) = Some x -> copen x = true -> (csess x = None \/ csess x = Some k) ->
+  nnth k (sessions sv) = Some s -> salive s = true -> pinv c k sv ->
+  rmeth r = Teardown -> is_fatal e = false ->
+  handle cf (sessions sv) c r (upd_conns s (nadd c (sconns s))) = HOk s1 status e ->
+  tcp' = match e with ESwTcp => true | ESwStd => false | _ => ctcp x end ->
+  ginv (Some k) (set_conn c (mkConn true None (cip x) tcp')
+                   (set_sess k (upd_conns s1 (nremove c (sconns s1))) sv)).
+Proof.
+  intros Ec Eo Ex Ek Al [A B C D E] Em NF Eh Et.
+  destruct (handle_teardown _ _ _ _ _ _ _ _ Em Eh) as (-> & NT & TD). cbn [upd_conns sconns].
+  set (s2 := upd_conns _ _).
+  unfold set_conn, set_sess; cbn [sessions conns].
+  assert (NS : forall k' s'', nnth k' (nset k s2 (sessions sv)) = Some s'' ->
+               (k' = k /\ s'' = s2) \/ (k' <> k /\ nnth k' (sessions sv) = Some s'')).
+  { intros k' s'' H1. rewrite (nnth_nset _ _ _ _ _ Ek) in H1.
+    destruct (N.eqb_spec k' k); [left; inversion H1; auto|right; auto]. }
+  assert (NL : forall k', k' <> k -> ~ linked sv c k').
+  { intros k' NK (y & Y1 & Y2 & Y3). rewrite Ec in Y1; inversion Y1; subst y. destruct Ex; congruence. }
+  constructor; cbn [sessions conns].
+  - intros k' s'' H1 H2. destruct (NS _ _ H1) as [[-> ->]|[NK H3]]; [|eauto]. exact (A k s Ek Al).
+  - intros k' s'' H1 H2 c'. rewrite (linked_set_unlinked sv _ c x _ _ c' k' Ec).
+    destruct (NS _ _ H1) as [[-> ->]|[NK H3]].
+    + subst s2; cbn [upd_conns sconns]. rewrite in_nremove, in_nadd.
+      destruct (N.eq_dec c' c) as [->|NC]; [tauto|]. rewrite (B k s Ek Al c' (or_introl NC)). tauto.
+    + destruct (N.eq_dec c' c) as [->|NC].
+      * rewrite (B k' s'' H3 H2 c (or_intror NK)). split; [intros L; exfalso; exact (NL k' NK L)|tauto].
+      * rewrite (B k' s'' H3 H2 c' (or_introl NC)). tauto.
+  - intros c' k' L. apply (linked_set_unlinked sv _ c x _ _ c' k' Ec) in L. destruct L as [NC L].
+    rewrite (nnth_nset _ _ _ _ _ Ek). destruct (C _ _ L) as (s'' & S1 & S2).
+    destruct (N.eqb_spec k' k); [exists s2; split; [reflexivity|exact Al]|eauto].
+  - intros c' y H1 H2 H3. rewrite (nnth_nset _ _ _ _ _ Ec) in H1.
+    destruct (N.eqb_spec c' c) as [->|NC].
+    + inversion H1; subst y; clear H1. cbn [ctcp] in H3. subst tcp'. exfalso.
+      destruct e; try discriminate; try congruence.
+      destruct (D c x Ec Eo H3) as (k' & s'' & T1 & T2 & T3 & T4).
+      destruct Ex as [Ex|Ex]; [congruence|]. rewrite Ex in T1; inversion T1; subst k'.
+      rewrite Ek in T2; inversion T2; subst s''.
+      destruct (A k s Ek Al) as (_ & _ & _ & _ & _ & I6 & _). destruct (I6 c T4) as [S1 S2].
+      apply TD; auto.
+    + destruct (D c' y H1 H2 H3) as (k' & s'' & T1 & T2 & T3 & T4).
+      exists k'. rewrite (nnth_nset _ _ _ _ _ Ek). destruct (N.eqb_spec k' k) as [->|NK]; [|eauto 6].
+      exists s2. rewrite Ek in T2; inversion T2; subst s''. repeat split; auto.
+  - intros k' s'' H1 H2 NK H3. destruct (NS _ _ H1) as [[-> _]|[_ H4]]; [congruence|eauto].
+Qed.
+
+Lemma finish_inv c sv rp e evs :
+  inv sv -> exists sv' evs', finish c sv rp e evs = Done sv' (Some rp) evs' /\ inv sv'.
+Proof.
+  intros I. unfold finish. destruct (is_fatal e).
+  - destruct (close_conn c sv) as [[sv1 ev1]|] eqn:E; [|exfalso; exact (close_conn_total c sv I E)].
+    eexists _, _. split; [reflexivity|]. eapply close_conn_inv; eauto.
+  - eauto.
+Qed.
+
+Lemma in_session_inv cf sv c x r k evs0 s :
+  nnth c (conns sv) = Some x -> copen x = true -> (csess x = None \/ csess x = Some k) ->
+  nnth k (sessions sv) = Some s -> salive s = true -> pinv c k sv ->
+  exists sv' rp evs, in_session cf sv c x r k evs0 = Done sv' (Some rp) evs /\ inv sv'.
+Proof.
+  intros Ec Eo Ex Ek Al P. unfold in_session. rewrite Ek.
+  destruct (handle_total cf (sessions sv) c r (upd_conns s (nadd c (sconns s))))
+    as (s1 & status & e & Eh); [apply sess_ok_conns; exact (p_sess _ _ _ P k s Ek Al)|].
+  rewrite Eh. rewrite Eo.
+  destruct (negb (is_fatal e) && meth_eqb (rmeth r) Teardown) eqn:Etd.
+  - apply andb_true_iff in Etd. destruct Etd as [NF Em]. apply negb_true_iff in NF. apply meth_eqb_eq in Em.
+    pose proof (teardown_ginv cf sv c x r k s s1 status e _ Ec Eo Ex Ek Al P Em NF Eh eq_refl) as G.
+    destruct (end_session k 1 _) as [sv3 evs1] eqn:Ee.
+    pose proof (end_session_inv _ _ _ _ _ Ee G) as I3.
+    unfold finish. rewrite NF. eauto.
+  - pose proof (linked_inv cf sv c x r k s s1 status e _ Ec Eo Ex Ek Al P Eh eq_refl) as I2.
+    destruct (finish_inv c _ (mkResp status true
+                (if negb (is_fatal e) && negb (meth_eqb (rmeth r) Announce) && negb (meth_eqb (rmeth r) Teardown)
+                 then Some k else None)) e (evs0 ++ []) I2) as (sv' & evs' & F & I').
+    eauto.
+Qed.
+
+Lemma nnth_app_l {A} (l : list A) y k x : nnth k l = Some x -> nnth k (l ++ [y]) = Some x.
+Proof. intros H. rewrite nnth_app_lt; [exact H|]. eapply nnth_some_lt; eauto. Qed.
+
+Lemma nnth_app_inv {A} (l : list A) y k x :
+  nnth k (l ++ [y]) = Some x -> (k = nlen l /\ x = y) \/ (k <> nlen l /\ nnth k l = Some x).
+Proof.
+  intros H. destruct (N.lt_trichotomy k (nlen l)) as [L|[->|G]].
+  - rewrite nnth_app_lt in H by exact L. right. split; [lia|exact H].
+  - rewrite nnth_app_last in H. inversion H. auto.
+  - rewrite nnth_ge in H; [discriminate|]. rewrite nlen_app. cbn. lia.
+Qed.
+
+Lemma new_session_pinv sv c x :
+  inv sv -> nnth c (conns sv) = Some x -> csess x = None ->
+  pinv c (nlen (sessions sv)) (mkSrv (sessions sv ++ [new_session c (cip x)]) (conns sv)).
+Proof.
+  intros [A B C D E] Ec Ex.
+  assert (LK : forall c' k', linked (mkSrv (sessions sv ++ [new_session c (cip x)]) (conns sv)) c' k' <-> linked sv c' k')
+    by (intros; reflexivity).
+  assert (NLK : forall c', ~ linked sv c' (nlen (sessions sv))).
+  { intros c' L. destruct (C _ _ L) as (s & S1 & _). apply nnth_some_lt in S1. lia. }
+  constructor; cbn [sessions conns].
+  - intros k' s' H1 H2. destruct (nnth_app_inv _ _ _ _ H1) as [[-> ->]|[NK H3]]; [apply sess_ok_new|eauto].
+  - intros k' s' H1 H2 c' NE. rewrite LK.
+    destruct (nnth_app_inv _ _ _ _ H1) as [[-> ->]|[NK H3]]; [|eauto].
+    cbn [new_session sconns]. split.
+    + intros [<-|[]]. destruct NE; contradiction.
+    + intros L. exfalso. exact (NLK _ L).
+  - intros c' k' L. apply LK in L. destruct (C _ _ L) as (s & S1 & S2). exists s. split; [apply nnth_app_l; exact S1|exact S2].
+  - intros c' y H1 H2 H3. destruct (D c' y H1 H2 H3) as (k' & s' & T1 & T2 & T3 & T4).
+    exists k', s'. repeat split; auto. apply nnth_app_l; exact T2.
+  - intros k' s' H1 H2 H3. destruct (nnth_app_inv _ _ _ _ H1) as [[-> ->]|[NK H4]]; [discriminate|].
+    apply (E k' s' H4 H2); [discriminate|exact H3].
+Qed.
+
+Theorem step_inv cf sv r :
+  inv sv -> exists sv' rp evs, step cf sv r = Done sv' rp evs /\ inv sv'.
+Proof.
+  intros I. unfold step.
+  destruct (nnth (rconn r) (conns sv)) as [x|] eqn:Ec; [|eauto].
+  destruct (copen x) eqn:Eo; cbn [negb]; [|eauto].
+  assert (T : ctcp x && match csess x with None => true | Some _ => false end = false).
+  { destruct (ctcp x) eqn:Et; [|reflexivity].
+    destruct (inv_tcp _ _ I _ _ Ec Eo Et) as (k & s & T1 & _). rewrite T1. reflexivity. }
+  rewrite T.
+  assert (FI : forall rp e, exists sv' rp' evs, finish (rconn r) sv rp e [] = Done sv' rp' evs /\ inv sv').
+  { intros rp e. destruct (finish_inv (rconn r) sv rp e [] I) as (sv' & evs' & F & I'). eauto. }
+  destruct (rcseq r); cbn [negb]; [|apply FI].
+  destruct (dispatch cf r) as [status e|create]; [apply FI|].
+  destruct (csess x) as [k0|] eqn:Ex.
+  - destruct (match rsess r with Some k => negb (k =? k0) | None => false end); [apply FI|].
+    assert (L : linked sv (rconn r) k0) by (exists x; auto).
+    destruct (inv_range _ _ I _ _ L) as (s & Ek & Al).
+    destruct (in_session_inv cf sv (rconn r) x r k0 [] s Ec Eo (or_intror Ex) Ek Al (inv_pinv _ _ _ I))
+      as (sv' & rp & evs & F & I').
+    eauto.
+  - destruct (match rsess r with
+              | Some k => match nnth k (sessions sv) with
+                          | Some s => if salive s then Some (k, s) else None
+                          | None => None
+                          end
+              | None => None
+              end) as [[k s]|] eqn:El.
+    + destruct (cip x =? saip s); [|apply FI].
+      assert (Ek : nnth k (sessions sv) = Some s /\ salive s = true).
+      { destruct (rsess r) as [k1|]; [|discriminate]. destruct (nnth k1 (sessions sv)) as [s2|] eqn:E2; [|discriminate].
+        destruct (salive s2) eqn:A2; [|discriminate]. inversion El; subst. auto. }
+      destruct Ek as [Ek Al].
+      destruct (in_session_inv cf sv (rconn r) x r k [] s Ec Eo (or_introl Ex) Ek Al (inv_pinv _ _ _ I))
+        as (sv' & rp & evs & F & I').
+      eauto.
+    + destruct create; [|apply FI].
+      pose proof (new_session_pinv sv (rconn r) x I Ec Ex) as P.
+      destruct (in_session_inv cf (mkSrv (sessions sv ++ [new_session (rconn r) (cip x)]) (conns sv))
+                  (rconn r) x r (nlen (sessions sv)) [EvOpen (nlen (sessions sv))] (new_session (rconn r) (cip x))
+                  Ec Eo (or_introl Ex) (nnth_app_last _ _) eq_refl P) as (sv' & rp & evs & F & I').
+      eauto.
+Qed.
+
+Lemma inv_init ips : inv (init_server ips).
+Proof.
+  unfold init_server. constructor; cbn [sessions conns].
+  - intros k s H; discriminate.
+  - intros k s H; discriminate.
+  - intros c k (x & A & B & C). cbn [conns] in A. rewrite nnth_map in A. destruct (nnth c ips); [|discriminate].
+    inversion A; subst x. discriminate.
+  - intros c x A B C. rewrite nnth_map in A. destruct (nnth c ips); [|discriminate].
+    inversion A; subst x. discriminate.
+  - intros k s H; discriminate.
+Qed.
+
+(* no request sequence crashes (nil dereference) or hangs (findFreeChannelPair) the server *)
+Theorem run_no_panic cf rs : forall sv, inv sv ->
+  snd (run_reqs cf sv rs) = TOk /\
+  Forall (fun x => inv (snd (fst x))) (fst (run_reqs cf sv rs)).
+Proof.
+  induction rs as [|r t IH]; intros sv I; cbn [run_reqs]; [split; [reflexivity|constructor]|].
+  destruct (step_inv cf sv r I) as (sv' & rp & evs & S & I'). rewrite S.
+  destruct (IH sv' I') as [A B]. destruct (run_reqs cf sv' t) as [l e]. cbn [fst snd] in *.
+  split; [exact A|]. constructor; [exact I'|exact B].
+Qed.
+
+(* ---------- one response per request ---------- *)
+Definition conn_open (sv : server) (c : N) : bool :=
+  match nnth c (conns sv) with Some x => copen x | None => false end.
+
+Theorem step_one_response cf sv r sv' rp evs :
+  step cf sv r = Done sv' rp evs ->
+  (conn_open sv (rconn r) = true -> exists x, rp = Some x /\ recho x = rcseq r) /\
+  (conn_open sv (rconn r) = false -> rp = None /\ sv' = sv).
+Proof.
+  unfold step, conn_open. intros H.
+  destruct (nnth (rconn r) (conns sv)) as [x|]; [|inversion H; split; [discriminate|auto]].
+  destruct (copen x); cbn [negb] in H; [|inversion H; split; [discriminate|auto]].
+  split; [intros _|discriminate].
+  destruct (ctcp x && _); [discriminate|].
+  destruct (rcseq r); cbn [negb] in H; [|apply finish_spec in H; destruct H as [_ ->]; eauto].
+  assert (IS : forall sv0 k evs0, in_session cf sv0 (rconn r) x r k evs0 = Done sv' rp evs ->
+                                  exists y, rp = Some y /\ recho y = true).
+  { intros sv0 k evs0 Hi. apply in_session_spec in Hi.
+    destruct Hi as (s & s1 & status & e & sid & _ & _ & _ & ->). eauto. }
+  destruct (dispatch cf r); [apply finish_spec in H; destruct H as [_ ->]; eauto|].
+  destruct (csess x).
+  - destruct (match rsess r with Some k => negb (k =? n) | None => false end);
+      [apply finish_spec in H; destruct H as [_ ->]; eauto|eauto].
+  - destruct (match rsess r with Some k => _ | None => None end) as [[k s]|].
+    + destruct (cip x =? saip s); [eauto|apply finish_spec in H; destruct H as [_ ->]; eauto].
+    + destruct create; [eauto|apply finish_spec in H; destruct H as [_ ->]; eauto].
+Qed.
